@@ -108,6 +108,14 @@ def model_corr(ctx, stream, cap, argv, replay):
         if C.canon_vols(mv) != C.canon_vols(cap.vols_before_post):
             fails.append(fail('disagreement', 'conversion loop: canonical volume terms differ (model %s)' % resp[:300],
                               {'stream': stream, 'stage': 'compile'}, replay))
+        # hypotheses of C01.postProcess_preserves / C08.closed_after_post, checked on the code's own dictionary:
+        # no operand of a volume is missing before the post-processing (keys are unique: it is a Python dict)
+        dangling = [(k, r) for k, v in cap.vols_before_post.items() if v[2] is not None for r in v[2][1]
+                    if r not in cap.vols_before_post]
+        if dangling:
+            fails.append(fail('disagreement', 'the volume dictionary handed to the post-processing has dangling '
+                              'references %r: hypothesis Closed of postProcess_preserves not met' % (dangling[:5],),
+                              {'stream': stream, 'stage': 'closed-before-post'}, replay))
         if cap.vols_after_post is not None:
             resp = drv.ask('post ' + lean.hx(C.post_request(cap, '--skip-deduplication' not in argv)))
             mv = C.vols_from_response(C.parse_sexp(resp))
